@@ -139,6 +139,13 @@ func c12RandomTemplate(r *rand.Rand, d, maxD int) *canon.Node {
 			}
 		}
 		return canon.Li(elts...)
+	case 4:
+		if r.Intn(3) == 0 {
+			// a nested list headed by the symbol quasiquote (a second backquote) or quote is data like any other list:
+			// the unquotes inside it are replaced all the same
+			return canon.Li(append([]*canon.Node{s(gen.Pick(r, []string{"quasiquote", "quasiquote", "quote", "quasiquoteexpand"}))}, elts...)...)
+		}
+		return canon.Li(elts...)
 	default:
 		return canon.Li(elts...)
 	}
@@ -328,7 +335,7 @@ func runC12(c *fw.Ctx) {
 	}
 	// (c) macros: programs vs the reference interpreter, and the call/expansion relation
 	r2 := c.Rand("macros")
-	pg := gen.NewPG(r2, gen.ProgOpts{Macros: true, Faults: 3, MaxDepth: c.Pick(5, 6)})
+	pg := gen.NewPG(r2, gen.ProgOpts{Macros: true, Try: true, Faults: 3, MaxDepth: c.Pick(5, 6)})
 	lib := map[string]bool{"cond": true, "and": true, "or": true, "->": true, "->>": true}
 	for i := 0; i < c.PerShard(c.Pick(150000, 4000000)); i++ {
 		forms := pg.Program()
